@@ -59,7 +59,7 @@ def generate(seed, tier="quick"):
     else:
         shape = gen_any_shape(r)
     o = stream(seed, "ops")
-    cfg = {"L": o.randint(4, 12), "channels": o.sample(mech.CHANNELS, o.randint(2, 5)), "synapses": o.sample(mech.SYNAPSES, o.randint(1, 3))}
+    cfg = {"L": o.randint(4, 12), "channels": o.sample(mech.CHANNELS, o.randint(2, 5)), "synapses": o.sample(mech.SYNAPSES, o.randint(1, 3)), "p_syn_clamp": 0.25}
     weights = swarm(o)
     weights.pop("delete_trainables", None)
     dw = DryWorld(shape)
